@@ -156,7 +156,7 @@ func c12Exec(t *testing.T, root string, sc c12Scenario, only int, prefix []int) 
 func TestC12(t *testing.T) {
 	r := NewReporter(t)
 	defer r.Done()
-	r.Rule("12 scenarios of 2-3 connections whose requests collide (same plain file, same generated image across member boundaries, CD images of different sector size, two directory enumerations, uploads into sibling files, churn, a client connecting while another one's teardown is running, an uploader next to a client whose mutations are refused, an idle neighbour that stays connected); scheduling points = every connection read/write/close, every accept and every leaf filesystem operation of the server goroutines; all interleavings with <= 2 (quick) / <= 3 (thorough; 2 for the three-client scenarios) preemptions; oracle: each client's response stream equals the stream of its script run alone, connection closed, handle ledger empty, uploaded files exact; distinct by schedule (choice sequence)")
+	r.Rule("14 scenarios of 2-3 connections whose requests collide (same plain file, same generated image across member boundaries, CD images of different sector size, CD images of equal name and length but different layout in two directories, 3k3y images with different embedded keys opened next to other opens, two directory enumerations, uploads into sibling files, churn, a client connecting while another one's teardown is running, an uploader next to a client whose mutations are refused, an idle neighbour that stays connected); scheduling points = every connection read/write/close, every accept and every leaf filesystem operation of the server goroutines; all interleavings with <= 2 (quick) / <= 3 (thorough; 2 for the three-client scenarios) preemptions; oracle: each client's response stream equals the stream of its script run alone, connection closed, handle ledger empty, uploaded files exact; distinct by schedule (choice sequence)")
 	w, _ := buildC02World(t, r)
 	defer w.Cleanup()
 	mkCDImage(w.Root, cdImg{name: "cd2336.bin", sector: 2336, sig: "psx", size: 0x200000}, 3)
@@ -167,6 +167,18 @@ func TestC12(t *testing.T) {
 	resetW := func() {
 		os.RemoveAll(filepath.Join(w.Root, "w"))
 		w.MkDir("w")
+	}
+	// two disc images of the same base name and length but different sector layout, in different directories
+	mkCDImage(w.Root, cdImg{name: "coll/Game A/disc1.bin", sector: 2352, sig: "psx", size: 0x200000}, 5)
+	mkCDImage(w.Root, cdImg{name: "coll/Game B/disc1.bin", sector: 2048, sig: "iso", size: 0x200000}, 6)
+	// a second 3k3y image with an embedded key of its own
+	{
+		pairs := []uint32{0, 2, 5, 7, 10, 11}
+		plain := patBytes(33, 0, 12*2048)
+		copy(plain, regionTable(pairs))
+		copy(plain[0xF70:], wmEnc)
+		copy(plain[0xF80:], c10Keys[1])
+		w.Data("k3/e2.iso", buildEncImage(plain, pairs, c10Keys[1]))
 	}
 	pa, pb := patBytes(1, 0, 70000), patBytes(2, 0, 65537)
 	scs := []c12Scenario{
@@ -179,6 +191,14 @@ func TestC12(t *testing.T) {
 		{name: "cd-different-sector-size", clients: [][]Req{
 			{mkReq(opOpenFile, "/cd2336.bin"), cdReq(1, 3), cdReq(16, 1)},
 			{mkReq(opOpenFile, "/cd2448.bin"), cdReq(1, 3), cdReq(0, 1)}}},
+		{name: "cd-same-name-different-layout", clients: [][]Req{
+			{mkReq(opOpenFile, "/coll/Game A/disc1.bin"), cdReq(1, 2), cdReq(16, 1)},
+			{mkReq(opOpenFile, "/coll/Game B/disc1.bin"), cdReq(1, 2), cdReq(16, 1)}}},
+		// an image decrypted with its embedded key while other connections open other files (every open probes for a
+		// watermark and a key): the key in use belongs to the connection's own image
+		{name: "embedded-keys", clients: [][]Req{
+			{mkReq(opOpenFile, "/k3/e.iso"), rdcReq(3*2048-5, 2100), rdReq(0xF60, 300)},
+			{mkReq(opOpenFile, "/plain/f65536.bin"), rdReq(0xF00, 600), mkReq(opOpenFile, "/k3/e2.iso"), rdcReq(3*2048, 2048)}}},
 		{name: "two-enumerations", clients: [][]Req{
 			{mkReq(opOpenDir, "/d"), noargReq(opReadDirEntry), noargReq(opReadDirEntry), noargReq(opReadDirEntry), noargReq(opReadDirEntry)},
 			{mkReq(opOpenDir, "/k3"), noargReq(opReadDirEntryV2), noargReq(opReadDir), mkReq(opOpenDir, "/d"), noargReq(opReadDir)}}},
